@@ -670,7 +670,11 @@ def regen(lib=None):
     chains = [x.split('=') for x in re.search(r'"CHAINS ([^"]*)"', out1).group(1).split(',')]
     cur_bad = re.findall(r'"([^"]+)"', re.search(r'Definition bad_link_ids : list string :=\s*\[(.*?)\]\.', part1, re.S).group(1))
     if sorted(bad) != sorted(cur_bad):
-        print('NOTE: bad_link_ids in part 1 of Proofs_Fault.v is %s but the model now gives %s: edit part 1' % (cur_bad, bad))
+        print('NOTE: bad_link_ids in part 1 of Proofs_Fault.v was %s, the model now gives %s: list rewritten '
+              '(update the comment above it by hand)' % (cur_bad, bad))
+        part1 = re.sub(r'(Definition bad_link_ids : list string :=\s*\[)(.*?)(\]\.)',
+                       lambda m: m.group(1) + ' ' + ';\n    '.join('"%s"' % b for b in sorted(bad)) + ' ' + m.group(3),
+                       part1, count=1, flags=re.S)
 
     def ctor(n):
         return 'E_ANY_OTHER_CLASS' if n.startswith('(') else 'E_' + n[len('MPI_ERR_'):]
@@ -771,11 +775,13 @@ def regen(lib=None):
                 S, '; '.join('"%s"' % x for x in p), b))
             o.append('  - apply site_of_In; by_vm.\n  - by_vm.\n  - by_vm.')
             o.append('  - apply sites_of_In; by_vm.\nQed.\n')
-        spec.append('thm no_silent_drop_%s_refuted nsd_%s_refuted' % (nm, nm))
+        conj_l = ['nsd_%s_refuted' % nm]
+        conj_t = ['~ no_silent_drop link_sites %s' % S]
         if D:
             o.append('Lemma nsd_%s_drops : drops_classes %s [%s].' % (nm, S, '; '.join(D)))
             o.append('Proof. apply drops_classes_intro; by_vm. Qed.\n')
-            spec.append('thm no_silent_drop_%s_drops nsd_%s_drops' % (nm, nm))
+            conj_l.append('nsd_%s_drops' % nm)
+            conj_t.append('drops_classes %s [%s]' % (S, '; '.join(D)))
         if badup:
             o.append('Lemma nsd_%s_partial : no_silent_drop_except link_sites %s [%s] bad_link_ids.' % (nm, S, '; '.join(D)))
             o.append('Proof. apply no_silent_drop_except_intro; by_vm. Qed.\n')
@@ -783,11 +789,20 @@ def regen(lib=None):
             o.append('Lemma nsd_%s_partial : no_silent_drop_except link_sites %s [%s] [].' % (nm, S, '; '.join(D)))
             fid = re.sub(r'[^A-Za-z0-9_]', '_', s['func'])
             o.append('Proof.\n  apply (no_silent_drop_except_nolinks_intro %s [%s] (up_set "%s")); [by_vm | exact up_closed_%s | exact no_bad_link_above_%s].\nQed.\n' % (S, '; '.join(D), s['func'], fid, fid))
-        spec.append('thm no_silent_drop_%s_partial nsd_%s_partial' % (nm, nm))
+        conj_l.append('nsd_%s_partial' % nm)
+        conj_t.append('no_silent_drop_except link_sites %s [%s] %s' % (S, '; '.join(D), 'bad_link_ids' if badup else '[]'))
+        # one statement per site in Properties_C11.v (Print Assumptions is what costs there)
+        o.append('Lemma nsd_%s_refuted_and_partial :\n  %s.' % (nm, ' /\\\n  '.join('(%s)' % t for t in conj_t)))
+        term = conj_l[-1]
+        for l in reversed(conj_l[:-1]):
+            term = '(conj %s %s)' % (l, term)
+        o.append('Proof. exact %s. Qed.\n' % term)
+        spec.append('thm no_silent_drop_%s_refuted_and_partial nsd_%s_refuted_and_partial' % (nm, nm))
     # ---- chains
     ctext = re.search(r'Definition chains : list \(string \* list string\) :=\s*\[(.*?)\]\.\s*\n\s*\(\* the link sites of one hop',
                       open(os.path.join(C.COQ, 'Fault.v')).read(), re.S).group(1)
     cdefs = [(m.group(1), re.findall(r'"([^"]+)"', m.group(2))) for m in re.finditer(r'\("([^"]+)",\s*\[([^\]]*)\]\)', ctext)]
+    good_ch, bad_ch = [], []
     for name, fs in cdefs:
         nm = re.sub(r'[^A-Za-z0-9_]+', '_', name).rstrip('_')
         hops = list(zip(fs, fs[1:]))
@@ -800,15 +815,22 @@ def regen(lib=None):
         if badhop is None:
             o.append('Lemma ch_%s : chain_reaches_api link_sites %s.' % (nm, Cn))
             o.append('Proof. apply chain_reaches_api_intro; [by_vm | apply forallb_hops_bad; by_vm]. Qed.\n')
-            spec.append('thm chain_%s ch_%s' % (nm, nm))
+            good_ch.append((name, nm))
         else:
             k, a, b = badhop
             o.append('Lemma ch_%s_refuted : ~ chain_reaches_api link_sites %s.' % (nm, Cn))
             o.append('Proof. apply (chain_refute %s %d "%s" "%s"); by_vm. Qed.\n' % (Cn, k, a, b))
             o.append('Lemma ch_%s_partial : chain_reaches_api_except link_sites %s bad_link_ids.' % (nm, Cn))
             o.append('Proof. apply chain_reaches_api_except_intro; by_vm. Qed.\n')
-            spec.append('thm chain_%s_refuted ch_%s_refuted' % (nm, nm))
-            spec.append('thm chain_%s_partial ch_%s_partial' % (nm, nm))
+            bad_ch.append((name, nm))
+    o.append('Lemma chains_reach_api :\n  Forall (fun name => chain_reaches_api link_sites (chain_of name))\n    [%s].' % '; '.join('"%s"' % n for n, _ in good_ch))
+    o.append('Proof. repeat (constructor; [first [%s] |]). constructor. Qed.\n' % ' | '.join('exact ch_%s' % m for _, m in good_ch))
+    spec.append('thm chains_reach_api chains_reach_api')
+    if bad_ch:
+        o.append('Lemma chains_refuted_and_partial :\n  Forall (fun name => ~ chain_reaches_api link_sites (chain_of name) /\\\n'
+                 '                       chain_reaches_api_except link_sites (chain_of name) bad_link_ids)\n    [%s].' % '; '.join('"%s"' % n for n, _ in bad_ch))
+        o.append('Proof. repeat (constructor; [first [%s] |]). constructor. Qed.\n' % ' | '.join('exact (conj ch_%s_refuted ch_%s_partial)' % (m, m) for _, m in bad_ch))
+        spec.append('thm chains_refuted_and_partial chains_refuted_and_partial')
     open(pf, 'w').write(part1 + '\n'.join(o) + '\n')
     open(os.path.join(C.COQ, 'props', 'C11.spec'), 'w').write('\n'.join(spec) + '\n')
     rc, out = C.sh(['coqc', '-Q', '.', 'Pnc', '-w', '-all', 'Proofs_Fault.v'], cwd=C.COQ, timeout=3000)
